@@ -387,7 +387,7 @@ func compatible(place, val string) bool {
 	return place == val || (val == "nil" && (place == "ptr" || place == "err"))
 }
 
-func rootIdent(e ast.Expr) string {
+func rootIdent_gsort(e ast.Expr) string {
 	for {
 		switch x := e.(type) {
 		case *ast.Ident:
@@ -412,18 +412,18 @@ func assignsRoot(b *ast.BlockStmt, root string) bool {
 		switch x := n.(type) {
 		case *ast.AssignStmt:
 			for _, l := range x.Lhs {
-				if rootIdent(l) == root {
+				if rootIdent_gsort(l) == root {
 					hit = true
 				}
 			}
 		case *ast.IncDecStmt:
-			if rootIdent(x.X) == root {
+			if rootIdent_gsort(x.X) == root {
 				hit = true
 			}
 		case *ast.CallExpr:
 			if src(x.Fun) == "sort.Sort" || src(x.Fun) == "append" {
 				for _, a := range x.Args {
-					if rootIdent(a) == root {
+					if rootIdent_gsort(a) == root {
 						hit = true
 					}
 				}
@@ -621,7 +621,7 @@ func (t *gs) rangeStmt(ind int, x *ast.RangeStmt) {
 	default:
 		t.fail(x.X, "range over something that is not a slice")
 	}
-	if r := rootIdent(x.X); r == "" || assignsRoot(x.Body, r) {
+	if r := rootIdent_gsort(x.X); r == "" || assignsRoot(x.Body, r) {
 		t.fail(x, "the ranged slice is written in the loop body")
 	}
 	key, okk := x.Key.(*ast.Ident)
